@@ -189,11 +189,13 @@ func FlattenMetadata(uuid dvid.UUID, configFName string) error {
 			versionToUUID[versions[i]] = uuids[i]
 		}
 	} else {
+		origRepo.RLock()
 		okVersions = make(map[dvid.VersionID]struct{}, len(origRepo.dag.nodes))
 		for v, node := range origRepo.dag.nodes {
 			versionToUUID[v] = node.uuid
 			okVersions[v] = struct{}{}
 		}
+		origRepo.RUnlock()
 	}
 
 	flattenRepo, err := origRepo.duplicate(okVersions, nil, fc.Exclusions)
@@ -557,6 +559,13 @@ func LimitVersions(uui dvid.UUID, configFName string) error {
 			delete(manager.versionToUUID, v)
 		}
 	}
+	manager.repoMutex.Unlock()
+	manager.idMutex.Unlock()
+
+	// The DAG has its own locks, and newVersion takes idMutex while it holds them: they are taken
+	// here only after the manager's were released.
+	repo.Lock()
+	repo.dag.Lock()
 	for v, node := range repo.dag.nodes {
 		if !okVersions[v] {
 			delete(repo.dag.nodes, v)
@@ -576,8 +585,8 @@ func LimitVersions(uui dvid.UUID, configFName string) error {
 			node.children = children
 		}
 	}
-	manager.repoMutex.Unlock()
-	manager.idMutex.Unlock()
+	repo.dag.Unlock()
+	repo.Unlock()
 	return nil
 }
 
